@@ -1522,7 +1522,9 @@ func AggrFunExpr(query *Query, current Map, expr sqlparser.AggrFunc, opts ...Exp
 		}
 		return result, nil
 	}
-	rs, ok := query.singletonExecutions[name]
+	// the memo is keyed by the whole call so that SUM(a) and SUM(b) do not share an entry
+	key := sqlparser.String(expr)
+	rs, ok := query.singletonExecutions[key]
 	if !ok {
 		all := map[string]any{"*": query.matched()}
 		slice, err := AggrFuncArgReader(query, all, sqlparser.Exprs{Exprs: expr.GetArgs()})
@@ -1533,7 +1535,7 @@ func AggrFunExpr(query *Query, current Map, expr sqlparser.AggrFunc, opts ...Exp
 		if err != nil {
 			return nil, err
 		}
-		query.singletonExecutions[name] = result
+		query.singletonExecutions[key] = result
 		return result, nil
 	}
 	return rs, nil
